@@ -483,6 +483,9 @@ def concolic_job(claim, seed, conn):
     conn.send(('done',))
 
 
+NATIVE_ONLY_PROPS = {'C02', 'C03', 'C05', 'C09', 'C11', 'C16', 'C18'}
+
+
 def validate_translator(prop, claims, seed, pool, max_claims=120):
     """run each (sampled) claim once through the shims concolically and once natively without shims on the same
     random inputs; compare exception status, assertion outcome and every observed value"""
@@ -499,7 +502,12 @@ def validate_translator(prop, claims, seed, pool, max_claims=120):
     pool.run([(c.name, concolic_job, (c, seed), 120) for c in sel], on_msg, lambda key, budget=False: None, label=f'{prop} validate')
     executed = sorted(set(x for g in got.values() for x in g.get('executed', []) if not x.split(':')[1].startswith('<')))
     usable = [(n, g) for n, g in got.items() if g['status'] in ('ok', 'exc')]
-    blobs = [dict(property=prop, claim=n, inputs=g['inputs'], want_observed=True) for n, g in usable]
+    # claims whose shimmed run could not be completed (not encodable: e.g. the library forced a Term through int()) are
+    # still executed natively on the inputs drawn so far (missing ones are drawn by the replayer): their assertion failures
+    # on the real float code are promoted exactly like those of the compared claims, only the value comparison is skipped
+    # (enabled for the checks that were run end-to-end with it on the unchanged tree; the others keep the previous behaviour)
+    native_only = [(n, g) for n, g in got.items() if g['status'] not in ('ok', 'exc')] if prop in NATIVE_ONLY_PROPS else []
+    blobs = [dict(property=prop, claim=n, inputs=g.get('inputs') or {}, want_observed=True) for n, g in usable + native_only]
     path = os.path.join(ROOT, 'replays', prop)
     os.makedirs(path, exist_ok=True)
     bf = os.path.join(path, '_validation_batch.json')
@@ -518,6 +526,12 @@ def validate_translator(prop, claims, seed, pool, max_claims=120):
     if outs is None:
         rep['error'] = 'native batch did not finish'
         return rep
+    for (n, g), o in zip(native_only, outs[len(usable):]):
+        if o.get('status') in ('harness-error', 'assumption-failed'):
+            continue
+        rep['native_only'] = rep.get('native_only', 0) + 1
+        for v in [v for v in o.get('violations', []) if str(v[1]) != 'condition false'][:2]:
+            rep['native_failures'].append(dict(claim=n, label=v[0], detail=str(v[1])[:300], inputs=o.get('inputs_used') or g.get('inputs') or {}))
     for (n, g), o in zip(usable, outs):
         if o.get('status') in ('harness-error', 'assumption-failed'):
             rep['skipped'] += 1
